@@ -97,7 +97,7 @@ class P:
 
 BOOL_OPS = {"<": "<?", "<=": "<=?", ">": ">?", ">=": ">=?", "==": "=?", "!=": None}
 CALLS = {"__builtin_clzll": "clzll", "ceil_log2": "ceil_log2", "std::min": "Z.min", "std::max": "Z.max",
-         "PGM_SUB_EPS": "PGM_SUB_EPS", "PGM_ADD_EPS": "PGM_ADD_EPS"}
+         "PGM_SUB_EPS": "PGM_SUB_EPS", "PGM_ADD_EPS": "PGM_ADD_EPS", "CEIL_INT_DIV": "CEIL_INT_DIV", "BIT_WIDTH": "BIT_WIDTH"}
 
 def coq(e, as_bool=False):
     k = e[0]
@@ -135,6 +135,7 @@ def coq(e, as_bool=False):
     raise TErr("cannot translate %s" % (e,))
 
 def translate(src, sizeof_env=None):
+    src = src.replace("std::numeric_limits<int64_t>::max()", str(2**63 - 1)).replace("std::numeric_limits<size_t>::max()", str(2**64 - 1))
     src = re.sub(r"std::(min|max)<\s*\w+\s*>", r"std::\1", src)        # std::min<size_t>(a, b) -> std::min(a, b)
     p = P(tokenize(src), sizeof_env or {})
     e = p.expr(0)
@@ -196,6 +197,64 @@ def main(outpath):
     L.append("(* cpgm.cpp PGMWrapper::search: lo = %s ; hi = %s *)" % (m1.group(1), m2.group(1)))
     L.append("Definition c_search_lo (pos epsilon : Z) : Z := %s." % translate(m1.group(1)))
     L.append("Definition c_search_hi (pos epsilon n : Z) : Z := %s." % translate(m2.group(1).replace("this->n", "n")))
+    # CompressedPGMIndex::search: EpsilonRecursive == 0 branch, routing window, final range
+    body = grab(V, r"ApproxPos search\(const K &key\) const \{\n        auto k = std::max\(first_key, key\);\n\n        if constexpr \(EpsilonRecursive == 0\)(.*?)\n    \}\n", "CompressedPGMIndex::search body")
+    los = re.findall(r"auto lo = ([^;]*);", body); his = re.findall(r"auto hi = ([^;]*);", body)
+    if len(los) != 3 or len(his) != 3: raise TErr("CompressedPGMIndex::search: expected three lo and three hi definitions, got %d/%d" % (len(los), len(his)))
+    strip = lambda e: re.sub(r"^level\.keys\.begin\(\) \+ ", "", e).replace("level.size()", "level_size")
+    L.append("(* pgm_index_variants.hpp CompressedPGMIndex::search: lo/hi of the EpsilonRecursive == 0 branch, of the routing loop, of the result *)")
+    L.append("Definition cmp_search0_lo (pos Epsilon : Z) : Z := %s." % translate(los[0]))
+    L.append("Definition cmp_search0_hi (pos Epsilon n : Z) : Z := %s." % translate(his[0]))
+    if not los[1].startswith("level.keys.begin() + ") or not his[1].startswith("level.keys.begin() + "):
+        raise TErr("CompressedPGMIndex::search: routing window no longer relative to level.keys.begin()")
+    L.append("Definition cmp_route_lo (pos EpsilonRecursive : Z) : Z := %s." % translate(strip(los[1])))
+    L.append("Definition cmp_route_hi (pos EpsilonRecursive level_size : Z) : Z := %s." % translate(strip(his[1])))
+    L.append("Definition cmp_search_lo (pos Epsilon : Z) : Z := %s." % translate(los[2]))
+    L.append("Definition cmp_search_hi (pos Epsilon n : Z) : Z := %s." % translate(his[2]))
+    # saturation limits of the three evaluation sites (argument of the Floating(...) conversion) and of Segment::operator()
+    e = grab(V, r"auto p = root_pos >= Floating\(([^?]*)\) \? std::numeric_limits<int64_t>::max\(\)", "compressed root saturation limit")
+    L.append("Definition cmp_root_far_arg : Z := %s." % translate(e))
+    es = re.findall(r"if \(p >= Floating\(([^;{]*)\)\)\n\s*return std::numeric_limits<int64_t>::max\(\);", open(os.path.join(REPO, V)).read())
+    if len(es) != 2: raise TErr("expected two `if (p >= Floating(..)) return INT64_MAX;` sites in %s, got %d" % (V, len(es)))
+    L.append("(* CompressedLevel::operator() / EliasFanoPGMIndex::SegmentData::operator(): if (p >= Floating(<arg>)) return INT64_MAX *)")
+    L.append("Definition cmp_level_far_arg : Z := %s." % translate(es[0]))
+    L.append("Definition efi_far_arg : Z := %s." % translate(es[1]))
+    e = grab(I, r"constexpr auto too_far = ([^;]*);", "Segment::operator() too_far")
+    L.append("(* pgm_index.hpp Segment::operator(): too_far = %s ; if (pos >= double(too_far)) return too_far *)" % e)
+    L.append("Definition pgm_too_far : Z := %s." % translate(e))
+    # CompressedLevel constructor: bitvector size, number of set bits, clamped intercept
+    e = grab(V, r"auto max_intercept = ([^;]*);", "max_intercept")
+    L.append("(* CompressedLevel ctor: max_intercept = %s *)" % e)
+    L.append("Definition cmp_max_intercept (prev_level_size intercept_offset : Z) : Z := %s." % translate(e))
+    e = grab(V, r"auto intercepts_count = std::distance\(first_intercept, last_intercept\) \+ ([^;]*);", "intercepts_count")
+    L.append("(* CompressedLevel ctor: intercepts_count = distance + %s *)" % e)
+    L.append("Definition cmp_intercepts_count (distance need_extra_segment : Z) : Z := distance + %s." % translate(e))
+    e = grab(V, r"builder\.set\(std::clamp<int64_t>\(\*it, ([^;]*)\) - intercept_offset\);", "clamped intercept")
+    a, b = split_top(e)
+    L.append("(* CompressedLevel ctor: builder.set(std::clamp<int64_t>(*it, %s, %s) - intercept_offset) *)" % (a.strip(), b.strip()))
+    L.append("Definition cmp_clamp_lo (prev : Z) : Z := %s." % translate(a.replace("*(it - 1)", "prev")))
+    L.append("Definition cmp_clamp_hi (prev_level_size : Z) : Z := %s." % translate(b))
+    # BucketingPGMIndex / EliasFanoPGMIndex search ranges, bucketing step
+    for cls, nm in (("BucketingPGMIndex", "bkt"), ("EliasFanoPGMIndex", "efi")):
+        m = re.search(r"\nclass %s \{(.*?)\n\};\n" % cls, open(os.path.join(REPO, V)).read(), re.S)
+        if not m: raise TErr("class %s not found" % cls)
+        sb = re.findall(r"ApproxPos search\(const K &key\) const \{(.*?)\n    \}", m.group(1), re.S)
+        if len(sb) != 1: raise TErr("%s::search: expected one body, got %d" % (cls, len(sb)))
+        m1 = re.search(r"auto lo = ([^;]*);", sb[0]); m2 = re.search(r"auto hi = ([^;]*);", sb[0])
+        if not (m1 and m2): raise TErr("%s::search: lo/hi not found" % cls)
+        L.append("(* %s::search: lo = %s ; hi = %s *)" % (cls, m1.group(1), m2.group(1)))
+        L.append("Definition %s_search_lo (pos Epsilon : Z) : Z := %s." % (nm, translate(m1.group(1))))
+        L.append("Definition %s_search_hi (pos Epsilon n : Z) : Z := %s." % (nm, translate(m2.group(1))))
+    e = grab(V, r"\} else\n            step = ([^;]*);", "bucketing step (non power of two)")
+    L.append("(* BucketingPGMIndex::build_top_level: step = %s  (the std::max<K> conversion is applied by the model) *)" % e)
+    a, b = split_top(re.match(r"std::max<K>\((.*)\)$", e.strip()).group(1))
+    L.append("Definition bkt_step_arg (last_key first_key TopLevelSize : Z) : Z := %s." % translate(a))
+    L.append("Definition bkt_step_min : Z := %s." % translate(b))
+    e = grab(V, r"actual_top_level_size = (CEIL_INT_DIV[^;]*);", "bucketing top level size (power of two)")
+    L.append("Definition bkt_pow2_top_size (last_key first_key step : Z) : Z := %s." % translate(e))
+    e = grab(V, r"step = K\(1\) << \(([^;]*)\);", "bucketing pow2 shift")
+    L.append("(* step = K(1) << (%s) *)" % e)
+    L.append("Definition bkt_pow2_shift (sizeof_K TopLevelSize : Z) : Z := %s." % translate(e.replace("CHAR_BIT", "8"), {"K": ("var", "sizeof_K")}))
     e = grab(V, r"static constexpr auto miss_threshold = ([^;]*);", "miss_threshold")
     L.append("Definition miss_threshold : Z := %s." % translate(e))
     e = grab(S, r"if \(parallelism == 1 \|\| n < ([^)]*)\)", "chunk threshold")
@@ -227,7 +286,17 @@ def main(outpath):
     e = grab(D, r"static uint64_t next_pow2\(uint64_t x\) \{\s*return ([^;]*);", "next_pow2")
     L.append("(* LoserTree::next_pow2(x) = %s *)" % e)
     L.append("Definition next_pow2 (x : Z) : Z := %s." % translate(e, {"unsigned long long": ("num", 8)}))
-    open(outpath, "w").write("\n".join(L) + "\n")
+    # DynamicPGMIndex bulk-load constructor: used_levels and the number of allocated levels
+    e = grab(D, r"used_levels = (std::max<uint8_t>\(ceil_log_base\(n\), min_level\) \+ 1);", "bulk-load used_levels")
+    L.append("(* DynamicPGMIndex(first,last,...): used_levels = %s *)" % e)
+    L.append("Definition dyn_bulk_used_levels (base n min_level : Z) : Z := wrapU 8 %s." % translate(e).replace("(ceil_log_base ", "(dyn_ceil_log_base base "))
+    e = grab(D, r"levels\.resize\((std::max<uint8_t>\(used_levels, \d+\) - min_level \+ 1)\);\n        level\(min_level\)\.reserve\(buffer_max_size\);\n        for \(uint8_t i = min_level \+ 1; i < max_fully", "bulk-load levels.resize")
+    L.append("Definition dyn_bulk_levels_count (used_levels min_level : Z) : Z := %s." % translate(e))
+    def safe(line):      # C++ text quoted inside a Coq comment must not open or close comments itself
+        if line.startswith("(* ") and line.endswith(" *)"):
+            return "(* " + line[3:-3].replace("(*", "( *").replace("*)", "* )") + " *)"
+        return line
+    open(outpath, "w").write("\n".join(safe(l) for l in L) + "\n")
 
 CALLS["ceil_log_base"] = "ceil_log_base"
 
